@@ -30,6 +30,7 @@ SUPP_THEOREMS = [
     "c15_client_rejected_args", "c15_client_agnostic",
     "c15_url_heuristics", "c15_detect_sound", "c15_detect_probes", "c15_detect_guard", "c15_fallback_decision", "c15_try_sse_decision",
     "c15_instances_independent", "c15_stdio_instances",
+    "c15_block_error_leaves", "c15_block_text_exit_swallows",
 ]
 RULE = (
     "conversations of 1..4 sequential exchanges: client call = every discovered typed helper / send_initialize / "
@@ -143,6 +144,8 @@ LABEL_CLASSES = {
 LABEL_CLASSES["consumer-slower-than-timeout"] = ("the consumer of the read stream does not read for longer than the transport's request timeout "
                                                  "while more than a full read-stream buffer is queued in front of the reply")
 LABEL_CLASSES["id-twins"] = "the client used an integer id and its string twin (7 and \"7\") as request ids on one connection"
+LABEL_CLASSES["error-text-cancel-scope"] = ("an exception whose text contains 'cancel scope' (here: an error reply with that message) "
+                                             "leaves the stdio context manager's block and is swallowed there")
 MODEL_TEXT_LIMIT = 30000   # larger conversations: the four real carriers against each other and the script only
 
 
@@ -193,6 +196,8 @@ def features(case, obs=None):
         f.add("logging:DEBUG" + (":formatting-handler" if case["debug"] == "format" else ""))
     if case.get("stderr"):
         f.add("stderr:" + case["stderr"])
+    if case.get("escape"):
+        f.add("exception-leaves-the-block")
     for x in case["xs"]:
         if x.get("idle"):
             f.add("idle:hours" if x["idle"] >= 3600 * 1024 else "idle:>timeout")
@@ -281,6 +286,7 @@ class Conversations(Suite):
         out += G.label_matrix(ctx.sub_rng("c15", "labels"))
         out += G.environment_matrix()
         out += G.late_duplicates()
+        out += G.escaping_errors(ctx.sub_rng("c15", "escaping"), names)
         out += G.cases(ctx.sub_rng("c15", budget), n, names)
         m = G.falsy_matrix(ctx.sub_rng("c15", "matrix"))
         out += m if budget != "quick" else ctx.sub_rng("c15", "matrix-sample").sample(m, 40)
@@ -459,11 +465,37 @@ class Conversations(Suite):
             r = (f"after-unprintable-exception/{pair}",
                  "after a message whose serialisation raised an exception whose str() raises: " + r[1], r[2])
         if r is not None and isinstance(r[2], dict) and r[2].get("carrier"):
-            # the declared metadata of a reply against its bytes: one class per dimension, whatever form the damage takes
-            cls = G.label_class(case, r[2]["carrier"])
+            # dimensions that have a finding of their own: blamed when the difference goes away without them
+            cls = self._blame(case, obs, r[2]["carrier"])
             if cls is not None:
                 r = (f"{cls}/{r[2]['carrier']}", LABEL_CLASSES[cls] + ": " + r[1], r[2])
         return r
+
+    def _verdict(self, case, obs):
+        uns = self.unsendable(case)
+        view = {c: self.masked(o, uns) for c, o in obs.items()}
+        return self._oracle_core(case, view) or self._oracle_twins(case, view, uns)
+
+    def _blame(self, case, obs, carrier):
+        """re-runs the carrier on the case without each such dimension (one at a time, then all of them)"""
+        ns = G.neutralisations(case, carrier)
+
+        def still(c2):
+            o2 = dict(obs)
+            o2[carrier] = H.run_carrier(c2, carrier)
+            r2 = self._verdict(c2, o2)
+            return r2 is not None and isinstance(r2[2], dict) and r2[2].get("carrier") == carrier
+        for cls, c2 in ns:
+            if not still(c2):
+                return cls
+        if len(ns) > 1:
+            # only together: blame the first one in the order of `neutralisations` (a regression of a fixed one first)
+            c2 = case
+            for cls, _ in ns:
+                c2 = dict(G.neutralisations(c2, carrier)).get(cls, c2)
+            if not still(c2):
+                return ns[0][0]
+        return None
 
     def _oracle_twins(self, case, view, uns):
         """several transport instances of one carrier alive at once, each with its own server playing the
@@ -550,6 +582,16 @@ class Conversations(Suite):
                 return (f"helper-outcome/{pair(ref, a)}",
                         f"helper call {i} ends differently on {ref} and {a}: {canon(obs[ref]['outcomes'][i:i + 1])[:300]} vs {canon(obs[a]['outcomes'][i:i + 1])[:300]}",
                         {"outcomes": obs[ref]["outcomes"]})
+        # what leaves the carrier's own context manager / Transport block when the helper's exception is not caught inside
+        if case.get("escape"):
+            for c in present:
+                want_b = obs[c].get("escaping") or {"left": "normally"}
+                got_b = obs[c].get("block")
+                if canon(got_b) != canon(want_b):
+                    return (f"block-outcome/{pair(c, other(c))}",
+                            f"{c}: the request helper inside the block ended with {canon(obs[c].get('escaping'))[:200]} and was not caught there, "
+                            f"but the caller of the block sees {canon(got_b)[:200]} (on {other(c)}: {canon(obs[other(c)].get('block') if other(c) in obs else None)[:200]})",
+                            {"carrier": c, "block": want_b})
         return None
 
     # ------------------------------------------------------------------ bookkeeping
